@@ -1093,3 +1093,107 @@ Print Assumptions C08_std_contain_file_agree.
 Example C08_std_contain_file_inhabited :
   std_file_case (B "file://h.x/tmp/dir/x?q#f") [B "y"; B "a/../b?k#g"; B "../../../up"; B "./z/"; B " s\t"] = true.
 Proof. exact std_contain_file_inhabited. Qed.
+
+(* ================= 11. the STANDARD-side reading of containment for FILE bases: the file state's simple arms and the
+   file slash state ================= *)
+(* Beside section 10 (path-relative references): (11.1) the empty reference and references whose first character is
+   '?' or '#' - the Standard's file state copies host, path (and query) of the base; (11.2) references with exactly ONE
+   leading '/' or '\' (the next character is neither) - the Standard's file slash state, "otherwise" arm: the host of
+   the base is kept and the first segment of the base path is carried over when it is a normalized Windows drive letter
+   and the text behind the separator does not start with a drive letter.  The side conditions are computable predicates
+   on the cleaned reference text.  There is NO drive-letter exclusion on the Standard's side of (11.2): "/C:/x" against
+   file://h.x/p keeps the host h.x in the Standard (parser.rs drops it: C08_1_refuted, F-C01-1 / F-C08-1). *)
+From RU Require Import Proofs.C01_EqFileSpec Proofs.C01_EqFileOne Proofs.C08_StdFileSlash.
+Open Scope N_scope.
+
+(* 11.1 empty / '?q' / '#f' (no hypothesis on the scheme is needed): success, the five front components and the path are
+   the base's *)
+Theorem C08_std_contain_file_simple : forall shp input sb, spec_valid sb -> has_opaque_path sb = false ->
+  std_file_simple_pre (spec_clean input) = true ->
+  exists su, spec_basic_url_parse shp input (Some sb) = BDone su /\ spec_same_front sb su /\ su_path su = su_path sb.
+Proof. exact std_contain_file_simple. Qed.
+Check C08_std_contain_file_simple : forall shp input sb, spec_valid sb -> has_opaque_path sb = false ->
+  match spec_clean input with [] => true | c :: _ => (c =? 63) || (c =? 35) end = true ->
+  exists su, spec_basic_url_parse shp input (Some sb) = BDone su
+    /\ (su_scheme su = su_scheme sb /\ su_username su = su_username sb /\ su_password su = su_password sb
+        /\ su_host su = su_host sb /\ su_port su = su_port sb)
+    /\ su_path su = su_path sb.
+Print Assumptions C08_std_contain_file_simple.
+
+(* 11.2 one leading '/' or '\' against a file base: success, the five front components are the base's, and the closed
+   form of the result: the path state run on the text behind the separator from the segment list one_init (the
+   normalized drive letter of the base, or empty) *)
+Theorem C08_std_contain_file_one : forall shp input sb, spec_valid sb -> has_opaque_path sb = false ->
+  list_eqb (su_scheme sb) str_file = true -> std_file_one_pre (spec_clean input) = true ->
+  exists su, spec_basic_url_parse shp input (Some sb) = BDone su /\ spec_same_front sb su
+    /\ su = file_tail (fkeep sb (one_init sb (tl (spec_clean input))))
+                      (spath_f (tl (spec_clean input)) (one_init sb (tl (spec_clean input))) []).
+Proof. exact std_contain_file_one. Qed.
+Check C08_std_contain_file_one : forall shp input sb, spec_valid sb -> has_opaque_path sb = false ->
+  list_eqb (su_scheme sb) str_file = true ->
+  match spec_clean input with
+  | c1 :: R1 => is_sl c1 && match R1 with c2 :: _ => negb (is_sl c2) | [] => true end
+  | [] => false
+  end = true ->
+  exists su, spec_basic_url_parse shp input (Some sb) = BDone su
+    /\ (su_scheme su = su_scheme sb /\ su_username su = su_username sb /\ su_password su = su_password sb
+        /\ su_host su = su_host sb /\ su_port su = su_port sb)
+    /\ su = file_tail (fkeep sb (one_init sb (tl (spec_clean input))))
+                      (spath_f (tl (spec_clean input)) (one_init sb (tl (spec_clean input))) []).
+Print Assumptions C08_std_contain_file_one.
+
+(* 11.3 all proved scheme-less reference shapes against a file base together (11.1, 11.2, 10.1; the three premises are
+   pairwise disjoint: std_file_pre_disjoint).  Outside: two leading slash characters (the authority is the
+   reference's), a reference starting with a Windows drive letter, a path-relative reference against a base whose path
+   ENDS in a normalized drive letter *)
+Theorem C08_std_contain_file_all : forall shp input sb, spec_valid sb -> has_opaque_path sb = false ->
+  list_eqb (su_scheme sb) str_file = true -> std_file_all_pre sb (spec_clean input) = true ->
+  exists su, spec_basic_url_parse shp input (Some sb) = BDone su /\ spec_same_front sb su.
+Proof. exact std_contain_file_all. Qed.
+Check C08_std_contain_file_all : forall shp input sb, spec_valid sb -> has_opaque_path sb = false ->
+  list_eqb (su_scheme sb) str_file = true ->
+  (std_file_simple_pre (spec_clean input) || std_file_one_pre (spec_clean input)
+   || (std_file_rel_pre (spec_clean input) && last_not_nwdl (Whatwg.path_segments sb))) = true ->
+  exists su, spec_basic_url_parse shp input (Some sb) = BDone su
+    /\ su_scheme su = su_scheme sb /\ su_username su = su_username sb /\ su_password su = su_password sb
+    /\ su_host su = su_host sb /\ su_port su = su_port sb.
+Print Assumptions C08_std_contain_file_all.
+
+(* 11.4 the crate's join agrees on the one-slash references of C01's classes in_class_file_rel_one (nothing carried:
+   base with a host field whose first path segment is not a normalized drive letter and no drive letter behind the
+   separator - or a drive letter behind the separator and a base with the EMPTY host) and in_class_file_rel_one_carry
+   (base with the empty host and a normalized drive letter as first segment, carried over by both sides); the path loop
+   inside fpath_ok / strip_stable: the Standard succeeds keeping the front, and the model answers Overflow (then the
+   Standard's href is beyond u32::MAX) or a record related to the Standard's result, a full_base pair again, whose API
+   strings protocol, username, password, host, hostname, port are the base's.  One hypothesis on the Standard's host
+   serializer (the empty host serializes to the empty text - true of spec_host_serializer), none on the host parsers *)
+Theorem C08_std_contain_file_one_agree : forall dbg hp hpo hd shp shs, shs SEmpty = [] -> forall b sb input,
+  usv_list input -> related dbg shs b sb -> spec_base_ok sb = true -> in_class_file_one_any sb input = true ->
+  exists su, spec_basic_url_parse shp input (Some sb) = BDone su /\ spec_same_front sb su
+    /\ ((join dbg hp hpo hd b input = PErr Overflow /\ U32_MAX_P < nlen (get_href shs su))
+        \/ exists u', join dbg hp hpo hd b input = POk u' /\ related dbg shs u' su /\ full_base dbg shs u' su
+                      /\ option_map api_front (api_of_model dbg u') = option_map api_front (api_of_model dbg b)).
+Proof. exact std_contain_file_one_agree. Qed.
+Check C08_std_contain_file_one_agree : forall dbg hp hpo hd shp shs, shs SEmpty = [] -> forall b sb input,
+  usv_list input -> related dbg shs b sb -> spec_base_ok sb = true ->
+  (in_class_file_rel_one sb input || in_class_file_rel_one_carry sb input) = true ->
+  exists su, spec_basic_url_parse shp input (Some sb) = BDone su /\ spec_same_front sb su
+    /\ ((parse_url dbg hp hpo hd None (Some b) input = PErr Overflow /\ U32_MAX_P < nlen (get_href shs su))
+        \/ exists u', parse_url dbg hp hpo hd None (Some b) input = POk u' /\ related dbg shs u' su
+                      /\ full_base dbg shs u' su
+                      /\ option_map api_front (api_of_model dbg u') = option_map api_front (api_of_model dbg b)).
+Print Assumptions C08_std_contain_file_one_agree.
+
+(* non-vacuity (host model with idna_clean): on the Standard alone, against file://h.x/tmp/d?q the references "", "?x",
+   "#f", "/p", "\p", "/C:/x" (host kept by the Standard) and " /a/../b?k#g" meet 11.1 / 11.2 and hence 11.3, the Standard
+   succeeds and scheme, host, hostname, port texts are the base's; the same against the drive-letter base
+   file:///C:/tmp/d?q; with the crate: "/p", "\p", "/a/../b?k#g" against file://h.x/tmp/d?q are in the class of 11.4, both
+   sides succeed with the serialization shown; "/p" and "/" against file:///C:/tmp/d?q are in the carry class and the
+   drive letter stays: file:///C:/p, file:///C:/ *)
+Example C08_std_contain_file_slash_inhabited :
+  std_fs_case (B "file://h.x/tmp/d?q") [B ""; B "?x"; B "#f"; B "/p"; B "\p"; B "/C:/x"; B " /a/../b?k#g"] = true
+  /\ std_fs_case (B "file:///C:/tmp/d?q") [B ""; B "?x"; B "#f"; B "/p"; B "\p"] = true
+  /\ std_fs_agree_case (B "file://h.x/tmp/d?q")
+       [(B "/p", B "file://h.x/p"); (B "\p", B "file://h.x/p"); (B "/a/../b?k#g", B "file://h.x/b?k#g")] = true
+  /\ std_fs_agree_case (B "file:///C:/tmp/d?q") [(B "/p", B "file:///C:/p"); (B "/", B "file:///C:/")] = true.
+Proof. exact std_contain_file_slash_inhabited. Qed.
